@@ -109,7 +109,10 @@ func (a *agent) Send(ctx context.Context, r calls.Request) (mesos.Response, erro
 	call := r.Call()
 	simrt.Yield()
 	if a.latency > 0 {
-		simrt.Sleep(a.latency) // the HTTP round trip to the agent: the event loop is busy meanwhile
+		// the HTTP round trip to the agent: the event loop is busy meanwhile; the agent has the call
+		// (and forwards it) half way through
+		simrt.Sleep(a.latency / 2)
+		defer simrt.Sleep(a.latency - a.latency/2)
 	}
 	now := a.c.S.Now()
 	switch call.Type {
@@ -405,9 +408,15 @@ func drawDisp(c *hk.Ctx, label string, ignoreOK bool) simos.Disposition {
 	}
 }
 
+// forceBasic: lock-step mode wants basic tasks only
+var forceBasic bool
+
 func genTask(c *hk.Ctx, i int) *taskSpec {
 	t := &taskSpec{ID: fmt.Sprintf("T%d", i+1)}
 	t.Kind = []string{"controllable", "basic", "hook"}[c.W(3, "kind")]
+	if forceBasic {
+		t.Kind = "basic"
+	}
 	t.Shell = c.W(2, "shell") == 1
 	t.LaunchT = []time.Duration{0, 100 * time.Millisecond, 2 * time.Second}[c.W(3, "launch-at")]
 	lead := simos.ProcSpec{Name: "main", ExitAfter: -1, Follows: -1}
@@ -415,7 +424,12 @@ func genTask(c *hk.Ctx, i int) *taskSpec {
 	lead.OnInt = drawDisp(c, "on-int", true)
 	if t.Kind != "controllable" {
 		lead.ExitAfter = []time.Duration{-1, 100 * time.Millisecond, 2 * time.Second, 30 * time.Second}[c.W(4, "lifetime")]
-		lead.ExitCode = fz(c, 2, "exit-code")
+		switch fz(c, 3, "exit-code") {
+		case 1:
+			lead.ExitCode = 1
+		case 2:
+			lead.ExitSignal = syscall.SIGSEGV // it crashes
+		}
 		if t.Kind == "hook" {
 			t.Timeout = []time.Duration{0, 5 * time.Second, 20 * time.Second}[c.W(3, "hook-timeout")]
 		}
@@ -472,8 +486,15 @@ func genTask(c *hk.Ctx, i int) *taskSpec {
 		t.Dev = d
 	}
 	// what the core asks of it
-	n := c.W(5, "n-ops")
+	n := c.W(6, "n-ops")
 	state := "STANDBY"
+	if c.W(3, "run-cycles") == 2 {
+		// several runs of one task: START, STOP, START again ...
+		for _, ev := range []string{"CONFIGURE", "START", "STOP", "START", "STOP"}[:4+c.W(2, "last-stop")] {
+			t.Ops = append(t.Ops, opSpec{Op: ev, Gap: gaps[c.W(3, "short-gap")]}) // the core does not wait between them
+		}
+		n = 0
+	}
 	for k := 0; k < n; k++ {
 		var cand []string
 		for ev := range directNext[state] {
@@ -790,8 +811,27 @@ func body(c *hk.Ctx) {
 	faultDen = []int{3, 6, 12}[c.W(3, "fault-intensity")]
 	sc.FaultDen = faultDen
 	n := 1 + c.W(3, "n-tasks")
+	// lock-step mode: several basic tasks of one environment are started and stopped together, run
+	// after run, so that the event loop is busy with the messages of one while the next request for
+	// another arrives
+	lockStep := c.W(4, "lock-step") == 3
+	var stepGaps []time.Duration
+	forceBasic = lockStep
+	if lockStep {
+		n = 2 + c.W(2, "n-tasks-lock-step")
+		for k := 0; k < 6; k++ {
+			stepGaps = append(stepGaps, gaps[c.W(3, "step-gap")])
+		}
+	}
 	for i := 0; i < n; i++ {
 		ts := genTask(c, i)
+		if lockStep && ts.Kind == "basic" {
+			ts.LaunchT = 0
+			ts.Ops = ts.Ops[:0]
+			for k, ev := range []string{"CONFIGURE", "START", "STOP", "START", "STOP", "KILL"} {
+				ts.Ops = append(ts.Ops, opSpec{Op: ev, Gap: stepGaps[k]})
+			}
+		}
 		sc.Tasks = append(sc.Tasks, ts)
 		tr := &taskRec{spec: ts, done: make(chan struct{})}
 		tr.info = h.taskInfo(ts)
@@ -804,6 +844,9 @@ func body(c *hk.Ctx) {
 		h.ag.sendErr = sc.UpdateFails
 	}
 	sc.SendLatency = []time.Duration{0, 2 * time.Millisecond, 150 * time.Millisecond}[c.W(3, "agent-latency")]
+	if lockStep {
+		sc.SendLatency = 150 * time.Millisecond
+	}
 	h.ag.latency = sc.SendLatency
 	c.Scenario = sc
 	h.sc = sc
